@@ -51,7 +51,8 @@ var effTable = map[string]string{
 	"os.Getenv": effEnv, "os.LookupEnv": effEnv, "os.Environ": effEnv, "os.ExpandEnv": effEnv,
 	"os.Exit": effProc,
 	"os.Stat": effFSRead, "os.Lstat": effFSRead, "os.SameFile": effPure, "os.ReadFile": effFSRead, "os.Open": effFSRead, "os.ReadDir": effFSRead, "os.Readlink": effFSRead,
-	"os.IsNotExist": effPure, "(os.DirEntry).Name": effPure, "(io/fs.DirEntry).Name": effPure, "os.IsExist": effPure, "os.IsPermission": effPure,
+	"os.IsNotExist": effPure, "(os.DirEntry).Name": effPure, "(io/fs.DirEntry).Name": effPure, "(os.DirEntry).Type": effPure, "(io/fs.DirEntry).Type": effPure, "(os.DirEntry).IsDir": effPure, "(io/fs.DirEntry).IsDir": effPure,
+	"(io/fs.FileMode).IsRegular": effPure, "(io/fs.FileMode).IsDir": effPure, "(io/fs.FileMode).Type": effPure, "(io/fs.FileMode).Perm": effPure, "os.IsExist": effPure, "os.IsPermission": effPure,
 	"os.WriteFile": effFSWrit, "os.OpenFile": effFSWrit, "os.Create": effFSWrit, "os.CreateTemp": effFSWrit, "os.Remove": effFSWrit, "os.RemoveAll": effFSWrit,
 	"os.Rename": effFSWrit, "os.Mkdir": effFSWrit, "os.MkdirAll": effFSWrit, "os.MkdirTemp": effFSWrit, "os.Chmod": effFSWrit, "os.Chown": effFSWrit, "os.Chtimes": effFSWrit,
 	"os.Truncate": effFSWrit, "os.Symlink": effFSWrit, "os.Link": effFSWrit, "os.Chdir": effProc, "os.Setenv": effProc, "os.Unsetenv": effProc, "os.Clearenv": effProc,
